@@ -53,7 +53,7 @@ CLASSES = {
 CLASS_NAMES = list(CLASSES)
 
 EXTRAS = ["named_ineq", "user_eq", "lmi_sym", "lmi_nonsym", "lmi_two", "lmi_unsent", "lmi_cross", "partition1", "partition2",
-          "fn_constraint", "fn_lmi", "fn_lmi_two", "noise", "unused_lmi_class", "same_constraint_twice", "const_metric", "two_metrics", "second_function", "dup_eval", "one_sample_functions"]
+          "fn_constraint", "fn_lmi", "fn_lmi_two", "noise", "unused_lmi_class", "same_constraint_twice", "const_metric", "two_metrics", "two_metrics_low", "second_function", "dup_eval", "one_sample_functions"]
 
 
 class Ctx(object):
@@ -331,6 +331,10 @@ def build(spec):
             p.set_performance_metric(m + 0.5)
         elif ex == "two_metrics":
             p.set_performance_metric(2 * d0 + 0.125)
+        elif ex == "two_metrics_low":
+            # a second metric that is the smaller one at every instance: the objective is NOT the first declared metric
+            p.set_performance_metric(0.5 * m)
+            c.metrics.append(0.5 * m)
         elif ex == "one_sample_functions":
             # functions / operators with exactly ONE recorded sample (and one used through its transpose only): their
             # one-sample conditions (norm bounds, 1x1 class LMIs) are part of the model
